@@ -388,9 +388,10 @@ def execute(plan, stats=None, check=True, want_events=True):
                                                                 'replayed': r[1] if r[0] == 'exc' else _val(r[1])})
             bump('o6_checks', len(history))
     except Violation as e:
-        violation = {'oracle': e.oracle, 'step': e.step, 'detail': e.detail}
+        violation = {'oracle': e.oracle, 'key': 'oracle=' + e.oracle, 'step': e.step, 'detail': e.detail}
     nontrivial = nontrivial_partial and (plan.get('config', 'B') == 'A' or nontrivial_fault)
     return {'events': events if want_events else None, 'digest': sha(events), 'violation': violation,
+            'violations': [violation] if violation else [],
             'nontrivial': bool(nontrivial), 'diagnostics': diag, 'cache_states': sorted(cache_states), 'stats': st}
 
 
